@@ -8,7 +8,7 @@ use digital_test_runner::TestCase;
 pub const META_C15: Meta = Meta {
     id: "C15",
     level: "exploration",
-    rule: "Four monitors per case (profiles `flow`+`expand`+`virtual`, 0-5 declare statements, some programs using random with the seed pinned through the hook, ~40% static programs): (1) re-parse: the same text is parsed and bound 6 times in one process (fresh HashMap RandomState each time) - all TestCase values must be ==, with identical `signals` order and identical Display; a digest of (Display, signal order, row stream) is also written per case and the orchestrator compares the digests produced by two separate processes (the dev-profile and release-profile shards run the same cases); (2) re-iterate: 3 iterations of one &TestCase with fresh devices replaying one script (one of them entered through the deprecated alias run_iter, one iterating a clone() of the test without ever calling vars() - all other runs call vars() before the first next() and after every step) give identical item streams, vars() and driver call logs; (2b) abandon: an iterator is dropped after a random number of steps (possibly inside a C/X expansion), the next full iteration must equal the first; (2c) history independence (half of the cases): the test, iterated several times by then, is run against a SECOND device (layout rotated and one signal swapped for another so that the length stays, other values) and must behave like a freshly parsed and bound test against that device; a clone of it then gets another `bits` on one signal (a public field) and must behave like a test bound with that width from the start; (3) interleave: 2-4 iterators over one &TestCase, each with its own device, next() interleaved by round-robin / sequential / PRNG schedules - every stream equals the solo stream; (4) static: try_iter_static().is_ok() iff the model reads no outputs (scope rule of C11), and then its (inputs incl. changed, expected, line) stream equals the projection of every dynamic run against 4 devices (empty layout, all outputs unique numbers, all Z, permuted subset with X), error items at the same index; 6% of the cases carry a planted variable that is in scope, never assigned on the executed path and named like a device output (such a program reads no outputs), and the static stream consumed through step_by(2..4) must deliver every k-th item of the plain stream (count() and last() on it must agree too), and try_iter(&mut static_test::Driver) (the crate's own zero-sized driver handed to the dynamic entry point) must deliver the static stream too. Non-trivial = >= 2 virtual signals, or >= 2 interleaved iterators with >= 3 rows each under a non-sequential schedule, or a static program with a C/X expansion.",
+    rule: "Four monitors per case (profiles `flow`+`expand`+`virtual`, 0-5 declare statements, some programs using random with the seed pinned through the hook, ~40% static programs): (1) re-parse: the same text is parsed and bound 6 times in one process (fresh HashMap RandomState each time) - all TestCase values must be ==, with identical `signals` order and identical Display; a digest of (Display, signal order, row stream) is also written per case and the orchestrator compares the digests produced by two separate processes (the dev-profile and release-profile shards run the same cases); (2) re-iterate: 3 iterations of one &TestCase with fresh devices replaying one script (one of them entered through the deprecated alias run_iter, one iterating a clone() of the test without ever calling vars() - all other runs call vars() before the first next() and after every step) give identical item streams, vars() and driver call logs; (2b) abandon: an iterator is dropped after a random number of steps (possibly inside a C/X expansion), the next full iteration must equal the first; (2c) history independence (half of the cases): the test, iterated several times by then, is run against a SECOND device (layout rotated and one signal swapped for another so that the length stays, other values) and must behave like a freshly parsed and bound test against that device; a clone of it then gets another `bits` on one signal (a public field) and must behave like a test bound with that width from the start; (3) interleave: 2-4 iterators over one &TestCase, each with its own device, next() interleaved by round-robin / sequential / PRNG schedules - every stream equals the solo stream; (4) static: try_iter_static().is_ok() iff the model reads no outputs (scope rule of C11), and then its (inputs incl. changed, expected, line) stream equals the projection of every dynamic run against 4 devices (empty layout, all outputs unique numbers, all Z, permuted subset with X), error items at the same index, and against a fifth device that REFUSES one or two calls (the first row's among them): an error item stands where the static row stands and every other row equals the static row, `changed` flags included; 6% of the cases carry a planted variable that is in scope, never assigned on the executed path and named like a device output (such a program reads no outputs), and the static stream consumed through step_by(2..4) must deliver every k-th item of the plain stream (count() and last() on it must agree too), and try_iter(&mut static_test::Driver) (the crate's own zero-sized driver handed to the dynamic entry point) must deliver the static stream too. Non-trivial = >= 2 virtual signals, or >= 2 interleaved iterators with >= 3 rows each under a non-sequential schedule, or a static program with a C/X expansion.",
     assumptions: &["identical device scripts give identical answers (pure function of call index and signal)"],
     quick_cases: 40000,
     thorough_cases: 500000,
@@ -489,6 +489,37 @@ pub fn c15(case_seed: u64, acc: &mut Acc) {
                         ));
                     }
                 }
+            }
+            // a driver that REFUSES one or two calls (the first row's among them): an error item
+            // stands where the static row stands, every other row is the static row still -
+            // values, expected values, lines and `changed` flags
+            if sitems.len() >= 2 && sitems.len() < 200 && sitems.iter().all(|i| i.is_ok()) {
+                let c = if r.chance(1, 2) { 1 } else { 1 + r.below(sitems.len()) };
+                let mut faults = vec![(c, Fault::Error(r.next_u64() >> 1))];
+                if r.chance(1, 3) {
+                    faults.push((c + 1, Fault::Error(r.next_u64() >> 1)));
+                }
+                let d = Script { layout: outs.clone(), values: ValueFn::Unique { salt: r.next_u64(), narrow: false }, faults, override_write: r.chance(1, 2), rebuild_signals: false };
+                let o2 = RunOpts { max_steps: 200, probe_after_end: 1, stop_at_error: false, seed: Some(seed), continue_on: Some(vec![true; 210]) };
+                let dynr = run_bound(tc, &case.signals, &d, &o2);
+                acc.evaluations += 1;
+                for (k, want) in sitems.iter().enumerate() {
+                    let Ok(want) = want else { continue };
+                    let ok = match dynr.3.get(k).map(|s| &s.item) {
+                        Some(RealItem::ErrDriver { .. }) => k + 1 == c || k == c,
+                        Some(RealItem::Row(row)) => {
+                            StaticItem { line: row.line, inputs: row.inputs.clone(), expected: row.outputs.iter().map(|o| (o.0, o.2)).collect() } == *want
+                        }
+                        _ => false,
+                    };
+                    if !ok {
+                        viol!(Finding::new(
+                            "static-differs-from-dynamic",
+                            format!("driver refusing call {c}: item {k}: dynamic {:?} vs static {:?}", dynr.3.get(k).map(|s| &s.item), want),
+                        ));
+                    }
+                }
+                acc.event("static_rows_compared_with_a_refusing_driver", sitems.len() as u64);
             }
             acc.event("static_rows_compared_x4_devices", sitems.len() as u64);
             // ... and the crate's own static driver handed to try_iter
